@@ -17,6 +17,19 @@ def next_power_2_inputs():
     return sorted(set(xs))
 
 
+def half_multi_inputs():
+    out = []
+    for ln in range(1, 41):
+        for pat in range(3):
+            if pat == 0:
+                out.append([((i * 37) + 0x5f) % 256 for i in range(ln)])
+            elif pat == 1:
+                out.append([0xff] * ln)
+            else:
+                out.append([((((i * 101) % 256 + ln) % 256) * 13) % 256 | 0x10 for i in range(ln)])
+    return out
+
+
 def model_kernels():
     """Generates kernels.v, evaluates it, returns {kernel: value} in the harness's shapes."""
     weights = [1, 2, 3, 7, (1 << 63) - 1]
@@ -39,6 +52,7 @@ def model_kernels():
             multi.append("k_row_multi %s %d" % (zlist(bs), pos))
             multi_keys.append((ln, pos))
     ev("row_multi", "[" + "; ".join(multi) + "]")
+    ev("row_half_multi", "[" + "; ".join("row_half %s" % zlist(bs) for bs in half_multi_inputs()) + "]")
     np2 = next_power_2_inputs()
     ev("next_power_2", "map next_power_2 %s" % zlist(np2))
     ev("sampled_key_cmp",
@@ -81,7 +95,7 @@ def model_kernels():
 
 # which model component each kernel belongs to
 KERNEL_COMPONENT = {
-    "row_increment_at": "sketch", "row_get_at": "sketch", "row_half": "sketch", "row_multi": "sketch", "next_power_2": "sketch",
+    "row_increment_at": "sketch", "row_get_at": "sketch", "row_half": "sketch", "row_multi": "sketch", "row_half_multi": "sketch", "next_power_2": "sketch",
     "sampled_key_cmp": "admission", "type_of_expiry_update": "api", "hit_ratio": "stats.hit_ratio",
     "is_space_available_for": "weights", "update_weight_stats": "weights", "shard_index": "ticker",
 }
@@ -122,6 +136,12 @@ def compare_kernels(binary, wanted=None):
         elif name == "row_multi":
             ivc = [[x[3]] + x[2] for x in iv]
             cmp_list(name, mv, ivc, keys["row_multi"])
+        elif name == "row_half_multi":
+            ins = half_multi_inputs()
+            if [x[0] for x in iv] != ins:
+                mism.append(dict(kernel=name, component="sketch", index=-1, input=None, model="inputs", impl="harness and driver disagree on the input rows"))
+            else:
+                cmp_list(name, mv, [x[1] for x in iv], ins)
         elif name == "next_power_2":
             # the model wraps (release semantics) where debug code would panic: inputs stay <= 2^63 so both agree
             cmp_list(name, mv, [x[1] for x in iv], keys["next_power_2"])
@@ -323,4 +343,10 @@ def row_monitor(binary):
                 fails.append(dict(what="get_at(byte=%d,pos=%d) = %d" % (b, pos, get[2 * b + pos]), byte=b, pos=pos))
         if half[b] != ((hi // 2) << 4 | (lo // 2)):
             fails.append(dict(what="half_counters(byte=%d) = %d" % (b, half[b]), byte=b))
+    for row, out in impl.get("row_half_multi", []):
+        want = [((x >> 4) // 2) << 4 | ((x & 15) // 2) for x in row]
+        if out != want:
+            j = [i for i in range(max(len(out), len(want))) if i >= len(out) or i >= len(want) or out[i] != want[i]][0]
+            fails.append(dict(what="half_counters on a row of %d bytes: byte %d (%s) became %s, not every counter was halved" % (len(row), j, row[j] if j < len(row) else None, out[j] if j < len(out) else None), row=row, halved=out))
+            break
     return fails[:5]
